@@ -153,6 +153,7 @@ class IoModel:
             ex, st, d, r, "write", VUnit(), path=io.file_path(st, a[0]), data=[data_desc(st, a[1])]))
         # ---- BufWriter
         R("BufWriter::new", lambda ex, st, fr, c, a, d, r: VStruct("BufWriter", [a[0], VVec([])]))
+        R("BufWriter::with_capacity", lambda ex, st, fr, c, a, d, r: VStruct("BufWriter", [a[1], VVec([])]))
         R("BufWriter as Write::write_all", m_bw_write(io))
         R("BufWriter as Write::flush", m_bw_flush(io))
         R("BufWriter::get_mut", lambda ex, st, fr, c, a, d, r: VRef(deref_ref2(st, a[0]).cell, deref_ref2(st, a[0]).path + (0,)))
@@ -527,6 +528,14 @@ def m_vec_deref_or_bytes(ex, st, fr, c, a, d, r):
 
 def m_len_or_bytes(ex, st, fr, c, a, d, r):
     v = deref_all(st, a[0])
+    if isinstance(v, VVec) and v.elems and all(isinstance(e, VOpaque) and e.tag == "chunk" and isinstance(e.data, tuple) and len(e.data) == 2
+                                              for e in v.elems):
+        # a byte vector assembled from opaque runs of bytes (extend_from_slice): its length is the sum of the runs
+        total = z3.IntVal(0)
+        for e in v.elems:
+            piece = VOpaque(e.data[0], e.data[1])
+            total = total + m_len_or_bytes(ex, st, fr, c, [piece], d, r).t
+        return VInt(total, "usize")
     if isinstance(v, VOpaque) and isinstance(v.data, tuple) and v.data and v.data[0] == "slice":
         return VInt(v.data[3], "usize")
     if isinstance(v, VOpaque):
